@@ -43,8 +43,13 @@ Authenticates(keys, i, hash) ==
 
 Accept(mut, cfg) == mut = "identity" /\ Authenticates(<<cfg.global>> \o cfg.rotated, 1, cfg.hash)
 
-Rows == { [kind |-> k, mut |-> m, cfg |-> c, accept |-> Accept(m, c), undet |-> FALSE] : k \in Kinds, m \in Mutations, c \in Configs }
-        \cup { [kind |-> k, mut |-> m, cfg |-> c, accept |-> FALSE, undet |-> TRUE] : k \in Kinds, m \in PrefixMutations, c \in {x \in Configs : x.name = "same"} }
+(* the lifetime configuration must not matter: with unlimited refresh tokens (no expiry in the
+   session) and with session-less expiry (requested_at + lifetime) the same checks apply *)
+Lifetimes == {"finite", "unlimited_refresh"}
+Rows == { [kind |-> k, mut |-> m, cfg |-> c, life |-> l, accept |-> Accept(m, c), undet |-> FALSE] :
+            k \in Kinds, m \in Mutations, c \in Configs, l \in Lifetimes }
+        \cup { [kind |-> k, mut |-> m, cfg |-> c, life |-> "finite", accept |-> FALSE, undet |-> TRUE] :
+            k \in Kinds, m \in PrefixMutations, c \in {x \in Configs : x.name = "same"} }
 
 (* JWT access tokens: only an untouched token signed by the configured key with its asymmetric algorithm *)
 JwtMutations == { "identity", "alg_none", "alg_none_signature_kept", "hs256_with_public_key", "signed_by_other_key", "payload_edited",
